@@ -17,6 +17,7 @@ CONSTANTS
   XS,         \* observation values (integers, in units)
   Target,     \* the value the target-matching traces ("near", "cum") look for
   Tols,       \* view tolerances in ticks (the model uses tol + 1/2)
+  DtSet,      \* step times (ticks) offered to the dt setter (only on reducers of duration 0)
   TensView,   \* also offer per-element (tensor) view times
   MaxDepth
 
@@ -36,6 +37,8 @@ MutOps(s) ==
   {[a |-> "obs", v |-> v] : v \in [1..E0 -> Alphabet(s.m.rk)]}
   \cup {[a |-> "clear", keep |-> k] : k \in BOOLEAN}
   \cup {[a |-> "dump"]}
+  \cup (IF s.m.ring.durk = 0 /\ s.m.rk \in TraceKinds \cup EventKinds     \* the time-based reducers
+        THEN {[a |-> "setdt", x |-> x] : x \in DtSet \ {s.m.ring.dtk}} ELSE {})
 QueryOps(s) ==
   LET n == s.m.ring.n
       TauS == (-2)..(s.m.ring.dtk * (n - 1) + 2)
@@ -118,8 +121,9 @@ TraceContinuous ==
   (st.m.rk \in TraceKinds /\ ~st.m.init) =>
     \A o \in Ops(st) : (o.a = "view" /\ ~o.tens) =>
       \A mo \in RApply(st.m, o) : mo.ret.t = "view" =>
-        \A e \in 1..E0 : mo.ret.r[e] = TraceAt(st.a, e, IF OnGrid(o.tau, Dt0, o.tol2)
-                                                          THEN RoundDiv(o.tau, Dt0) * Dt0 ELSE o.tau)
+        \A e \in 1..E0 : mo.ret.r[e] = TraceAt(st.a, e, IF OnGrid(o.tau, st.m.ring.dtk, o.tol2)
+                                                          THEN RoundDiv(o.tau, st.m.ring.dtk) * st.m.ring.dtk
+                                                          ELSE o.tau)
 
 \* Clear(keepshape) => the behaviour of a never-observed reducer
 Fresh == MInit(st.m.rk, st.m.ring.dtk, st.m.ring.durk, st.m.ring.incl)
